@@ -78,7 +78,7 @@ def gen_pmat(r, k):
     compatible = r.random() < 0.85
     start0 = r.choice([0.0, 0.0, 10.0, -5.0])
     return {"kind": "pmat", "n": n, "rates": rates, "start0": start0, "step": step, "length": length, "mult": mult,
-            "shift_pts": shift_pts, "sublen": sublen, "compatible": compatible}
+            "shift_pts": shift_pts, "sublen": sublen, "compatible": compatible, "corr": [-1, 0, 1, 2][k % 4]}
 
 
 # ------------------------------------------------------------------ implementation drivers
@@ -213,8 +213,12 @@ def impl_pmat(c):
     prop = PopulationPropagator(ta, rate_matrix=rm)
     inside = (c["shift_pts"] + (c["sublen"] - 1) * c["mult"]) <= c["length"] - 1 and c["shift_pts"] < c["length"] - 1
     expect_ok = c["compatible"] and inside
+    corr = c.get("corr", -1)            # the option that also returns the expansion in orders of the transfer rates
+    kw = {} if corr < 0 else {"corrections": corr, "exact": corr > 0}
     try:
-        U = prop.get_PropagationMatrix(ts)
+        U = prop.get_PropagationMatrix(ts, **kw)
+        if corr >= 0:
+            U = U[0]                    # the propagation matrix itself; the correction terms are not judged
     except Exception as e:
         if expect_ok:
             return "compatible sub-axis refused: %r" % (e,)
@@ -228,7 +232,7 @@ def impl_pmat(c):
         if err > 1e-9:
             return "U[:,:,%d] differs from expm(K*%g) by %g (sub-axis start %g, step %g)" % (i, t, err, substart, substep)
     if not numpy.array_equal(K, rm.data):
-        return "rate matrix changed by get_PropagationMatrix"
+        return "rate matrix changed by get_PropagationMatrix (corrections=%d)" % corr
     U2 = prop.get_PropagationMatrix(ts)
     if not numpy.array_equal(U, U2):
         return "repeated get_PropagationMatrix on the same propagator differs by %g" % numpy.max(numpy.abs(U - U2))
@@ -348,7 +352,9 @@ def main():
         # corpus: minimal witnesses of earlier/seeded failures run first
         cases = [{"kind": "hist", "n": 2, "init": None, "ops": [[1, 0, 5], [1, 0, 2]]},
                  {"kind": "pmat", "n": 2, "rates": [[0, 0.02], [0.01, 0]], "start0": 0.0, "step": 1.0, "length": 400,
-                  "mult": 10, "shift_pts": 7, "sublen": 5, "compatible": True}] + cases
+                  "mult": 10, "shift_pts": 7, "sublen": 5, "compatible": True},
+                 {"kind": "pmat", "n": 2, "rates": [[0, 0.02], [0.01, 0]], "start0": 0.0, "step": 1.0, "length": 400,
+                  "mult": 10, "shift_pts": 0, "sublen": 5, "compatible": True, "corr": 0}] + cases
     run(chk, cases)
     chk.finish()
 
